@@ -17,7 +17,7 @@ impl GdsWriter {
 //|         !writable(*record) ==> r is Err && final(self).dest@ == old(self).dest@,
 //@   before /let \(rtype, dtype, len\) = match record/
 //|         proof { lemma_payload_len(*record); }
-//@   before /Send those header-bytes to the writer/
+//@   before1 /Send those header-bytes to the writer|match u16::try_from\(len \+ 4\)/
 //|         proof {
 //|             assert(len == payload(*record).len());
 //|             assert(rtype as u8 == rec_num(*record));
